@@ -1118,6 +1118,12 @@ fn parent_main<C: Check>(check: &C, a: &Args, tmpdir: &Path) -> i32 {
             c.insert(k, v);
         }
     }
+    if let Ok(p) = std::env::var("VERIF_BUILD_PROFILE") {
+        coverage["build_profile"] = json!(p);
+    }
+    if let Ok(p) = std::env::var("VERIF_OTHER_PASS") {
+        coverage["other_build_pass"] = json!(p);
+    }
     if total.nontrivial.len() < 2 {
         coverage["coverage_warning"] = json!("fewer than 2 distinct non-trivial cases in this run");
     }
